@@ -656,3 +656,40 @@ Definition wf_b (sc : scenario) (c0 : cluster) : bool :=
      end
   && (negb (o_destroy (sc_opts sc)) || o_prune (sc_opts sc))
   && wf_fin_b sc c0.
+
+(* ---- C06 seen through the pipeline -------------------------------------------------
+   The C06 check proper drives WaitTask and the runner directly (Model/WaitTask.v).  This
+   monitor states two of C06's clauses on whole runs, where the actuation records come from
+   the real apply / prune tasks: (1) an object is reported Skipped by its wait group exactly
+   when its actuation in this run failed or was skipped; (2) after a Skipped or a timed-out
+   wait event no further wait event is emitted for the object (terminal), and a Successful
+   or Failed one is only ever followed by a change (Pending / Successful / Failed), never by
+   a repeat of itself. *)
+Definition last_act (pre : list item) (i : id) : option ast :=
+  match rev (flat_map (fun it => match it with
+                                 | IEv (EApply _ j s) | IEv (EPrune _ j s) => if Nat.eqb i j then [s] else []
+                                 | _ => [] end) pre) with
+  | s :: _ => Some s
+  | [] => None
+  end.
+Fixpoint c06_walk (pre : list item) (t : list item) : bool :=
+  match t with
+  | [] => true
+  | it :: rest =>
+      (match it with
+       | IEv (EWait _ i s) =>
+           let bad_act := match last_act pre i with Some AFail | Some ASkip => true | _ => false end in
+           Bool.eqb (match s with WSkipped => true | _ => false end) bad_act
+           && match last_wait pre i, s with
+              | Some WSkipped, _ | Some WTimedOut, _ => false
+              | Some WOk, WOk | Some WFailed, WFailed | Some WPending, WPending => false
+              | _, _ => true
+              end
+       | _ => true
+       end) && c06_walk (pre ++ [it]) rest
+  end.
+Definition mon_C06p (sc : scenario) (c0 : cluster) (out : outcome) : bool := c06_walk [] (out_trace out).
+Definition check_C06p := check_with mon_C06p.
+
+Definition mon_all_ext (sc : scenario) (c0 : cluster) (out : outcome) : list bool :=
+  mon_all sc c0 out ++ [mon_C06p sc c0 out].
